@@ -295,6 +295,62 @@ func TestC07(t *testing.T) {
 			}
 		}
 	}
+	// (1a'') valid hellos in which only version fields vary: every (record-layer version,
+	// client_version) pair of 0x0300..0x0304, with and without a supported_versions extension -
+	// the record-layer version is arbitrary per RFC 8446, so all of these are valid inputs
+	for vi, v := range valid {
+		if vi%mon.Pick(6, 1) != 0 {
+			continue
+		}
+		ch0, err := wire.ParseClientHello(v)
+		if err != nil {
+			continue
+		}
+		for _, strip := range []bool{false, true} {
+			exts := ch0.Exts
+			if strip {
+				exts = nil
+				for _, e := range ch0.Exts {
+					if e.Type != wire.ExtSupportedVersions && e.Type != wire.ExtKeyShare && e.Type != wire.ExtPSKModes && e.Type != wire.ExtPreSharedKey {
+						exts = append(exts, e)
+					}
+				}
+			}
+			for rv := uint16(0x0300); rv <= 0x0304; rv++ {
+				for cv := uint16(0x0300); cv <= 0x0304; cv++ {
+					c2 := *ch0
+					c2.Version = cv
+					msg := marshalCH(&c2, exts, true)
+					if _, err := wire.ParseClientHello(msg); err != nil {
+						continue
+					}
+					rec := append([]byte{22, byte(rv >> 8), byte(rv), byte(len(msg) >> 8), byte(len(msg))}, msg...)
+					r.Count("version_field_variants", 1)
+					for fi := range fpFlags {
+						f := fpFlags[fi]
+						var spec *tls.ClientHelloSpec
+						err, pn := guard("FingerprintClientHello(version fields)", rec, func() error {
+							var e error
+							spec, e = f.FingerprintClientHello(rec)
+							return e
+						})
+						if !pn && err == nil && spec != nil {
+							applySpec("FingerprintClientHello(version fields)", rec, spec)
+						}
+						if fi == 0 {
+							var s2 tls.ClientHelloSpec
+							if e, p := guard("FromRaw(version fields)", rec, func() error { return s2.FromRaw(rec, true, true) }); !p && e == nil {
+								applySpec("FromRaw(version fields)", rec, &s2)
+							}
+						}
+						if !mon.Thorough() {
+							break
+						}
+					}
+				}
+			}
+		}
+	}
 	// (1b) random mutations (1-3 stacked), half of them re-framed
 	nm := mon.Pick(30000, 1500000)
 	for i := 0; i < nm; i++ {
